@@ -205,6 +205,26 @@ Definition round_trip_ok (T : list pos) (O : list (pos * nat)) (ps : list spath)
   | None => false
   end.
 
+
+(* the transport shape (move_by_waypoints with pick and drop, two_col_zone.rearrange): pick everything up on w0,
+   travel, release everything on the last waypoint *)
+Definition grid_sites (w : list Q * list Q) : list pos := flat_map (fun x => map (fun y => (x, y)) (snd w)) (fst w).
+Definition recognise_transport (ps : list spath) : option (nat * nat * (list Q * list Q) * list (list Q * list Q)) :=
+  match ps with
+  | [mkspath nx ny [SWay [w0]; SSwitch On x y; SWay (w0' :: ws); SSwitch Off x' y'; SWay [wn]]] =>
+      if is_all x && is_all y && is_all x' && is_all y' && wp_eqb w0 w0' && wp_eqb wn (last (w0 :: ws) w0)
+      then Some (nx, ny, w0, ws) else None
+  | _ => None
+  end.
+Definition transport_ok (T : list pos) (O : list (pos * nat)) (ps : list spath) : bool :=
+  match recognise_transport ps with
+  | Some (nx, ny, w0, ws) =>
+      let wn := last (w0 :: ws) w0 in
+      wp_okb nx ny w0 && forallb (wp_okb nx ny) ws && on_traps T w0 && on_traps T wn && occ_wfb O
+      && forallb (fun p => match occ_find p O with None => true | Some _ => existsb (pos_eqb p) (grid_sites w0) end) (grid_sites wn)
+  | None => false
+  end.
+
 (* rendering *)
 Local Open Scope string_scope.
 Definition show_aerr (e : aerr) : string :=
